@@ -67,6 +67,9 @@ ADDRS = [
     (None, 'foo:bar=1'),
     (None, 'launchd:env=DBUS_LAUNCHD_SESSION_BUS_SOCKET'),
     ('unix', 'unix:path=/tmp/sim-bus-c,guid=0011'),
+    ('unix', 'unix:guid=00aa,path=/tmp/sim-bus-d'),
+    ('tcp', 'tcp:port=4321,host=localhost,family=ipv4'),
+    ('unix', 'unix:abstract=/tmp/dbus-XyZ,guid=1f'),
 ]
 
 
